@@ -48,6 +48,13 @@ func init() {
 		vrt.Log(evEnd, 4, int64(x))
 		return x + 100, nil
 	})
+	genql.RegisterFunction("hawaited", func(q *genql.Query, cur genql.Map, fo *genql.FunctionOptions, args []any) (any, error) {
+		x, _ := gq.Num(args[0])
+		vrt.Log(evStart, 9, int64(x))
+		vrt.Yield()
+		vrt.Log(evEnd, 9, int64(x))
+		return x + 200, nil
+	})
 	// HFAILODD(x): fails (returns an error) for odd x, x + 7 otherwise; HPANICODD panics for odd x
 	genql.RegisterFunction("hfailodd", func(q *genql.Query, cur genql.Map, fo *genql.FunctionOptions, args []any) (any, error) {
 		x, _ := gq.Num(args[0])
@@ -112,6 +119,9 @@ var c14Items = []c14item{
 	{sql: "ONCE.HONCE() AS o", col: "o", fn: 3, waited: true, once: true},
 	{sql: "ONCE.HNILONCE() AS z", col: "z", fn: 8, waited: true, once: true, null: true},
 	{sql: "ASYNC.HMID(%s) AS m", col: "m", fn: 4, mul: func(x float64) any { return x + 100 }, waited: true},
+	// an ASYNC call that is awaited explicitly: the call starts when the deferred item is evaluated,
+	// and it is still invoked once per row, completed before Exec returns, and its value is in the row
+	{sql: "AWAIT(ASYNC.HAWAITED(%s)) AS w", col: "w", fn: 9, mul: func(x float64) any { return x + 200 }, waited: true},
 	// calls that fail on some rows (the error goes to the UnReportedErrors handler): the query still
 	// returns, every call was invoked once and has completed, the failing row's column is NULL
 	{sql: "ASYNC.HFAILODD(%s) AS e", col: "e", fn: 6, mul: func(x float64) any {
